@@ -481,6 +481,19 @@ impl<'a> WriteTxn<'a> {
         self.inner.set_vector(node, vector).map_err(Error::from)
     }
 
+    /// Marks a statement boundary: everything written so far stays in the transaction even
+    /// if a later statement is aborted with [`WriteTxn::abort_statement`].
+    pub fn end_statement(&mut self) {
+        self.inner.end_statement();
+    }
+
+    /// Discards everything written since the last statement boundary. Call this when a
+    /// statement fails inside a transaction that may still be committed, so that the failed
+    /// statement has no effect.
+    pub fn abort_statement(&mut self) {
+        self.inner.abort_statement();
+    }
+
     /// Commits the transaction.
     ///
     /// All modifications are written to the WAL and made visible
